@@ -122,7 +122,10 @@ fn worker(make: impl FnOnce() -> Option<Box<dyn PeerApi>>, rx: Receiver<Cmd>, tx
 #[derive(Clone, Copy, PartialEq, Debug)]
 enum Ph { Est, AwaitRp, GotRq, Done }
 
-struct Run { trace: Vec<Label>, wire: [Vec<Kind>; 2], orderly: [bool; 2], oracle: Oracle, impls: (bool, bool), notes: Vec<String> }
+/// `complete[p]`: the driver knows that `p` closed with nothing unread on its side, so its close was an orderly FIN and
+/// everything it wrote must be on the wire; otherwise (unread data at close => reset) a tail of what it wrote may be lost.
+/// `orderly` (how the proxy saw the direction end) is informative only: the kernel may report a reset as end of stream.
+struct Run { trace: Vec<Label>, wire: [Vec<Kind>; 2], complete: [bool; 2], orderly: [bool; 2], oracle: Oracle, impls: (bool, bool), notes: Vec<String> }
 
 fn run_schedule(r: &mut Rng, async_client: bool, async_server: bool, max_steps: usize) -> Option<Run> {
     let listener = TcpListener::bind("127.0.0.1:0").ok()?;
@@ -158,7 +161,10 @@ fn run_schedule(r: &mut Rng, async_client: bool, async_server: bool, max_steps: 
         txs.push(ctx); rxs.push(rrx);
     }
     let ok = ready_rx.recv_timeout(IO_TIMEOUT * 3).unwrap_or(false) & ready_rx.recv_timeout(IO_TIMEOUT * 3).unwrap_or(false);
+    // how long the driver waits for a worker: longer than any socket timeout of the associations
     let long = IO_TIMEOUT * 3;
+    // how long the driver waits for the proxy to have seen something that is already on its way (returns as soon as it is there)
+    let settle = Duration::from_secs(20);
     fn call_on(txs: &[Sender<Cmd>], rxs: &[Receiver<Res>], long: Duration, p: usize, c: Cmd) -> Res {
         if txs[p].send(c).is_err() { return Res::Gone; }
         rxs[p].recv_timeout(long).unwrap_or(Res::Gone)
@@ -176,7 +182,14 @@ fn run_schedule(r: &mut Rng, async_client: bool, async_server: bool, max_steps: 
     let mut pending_release = [false, false];
     let fail = |f: &mut Option<(String, String)>, c: &str, d: String| { if f.is_none() { *f = Some((c.to_string(), d)); } };
     let mut steps = 0usize;
+    let mut complete = [true, true];
+    let mut close_seen = [false, false];
+    // a peer that closes with PDUs of the other side still unread resets the connection: a tail of what it wrote may be lost
+    let note_closes = |ph: &[Ph; 2], ch: &[VecDeque<Item>; 2], complete: &mut [bool; 2], close_seen: &mut [bool; 2]| {
+        for p in 0..2 { if ph[p] == Ph::Done && !close_seen[p] { close_seen[p] = true; complete[p] = !ch[1 - p].iter().any(|i| matches!(i, Item::K(_))); } }
+    };
     while ph[0] != Ph::Done || ph[1] != Ph::Done {
+        note_closes(&ph, &ch, &mut complete, &mut close_seen);
         steps += 1;
         // a release in progress completes as soon as something is there to read
         let mut acted = false;
@@ -208,7 +221,7 @@ fn run_schedule(r: &mut Rng, async_client: bool, async_server: bool, max_steps: 
                     None => { trace.push(Label::Bad(format!("release result {:?}", res))); }
                 }
                 ph[p] = Ph::Done; ch[p].push_back(Item::Fin);
-                if !matches!(res, Res::ReleaseOk) && !px.wait_ended(p as u8, Duration::from_millis(1500)) {
+                if !matches!(res, Res::ReleaseOk) && !px.wait_ended(p as u8, settle) {
                     fail(&mut fails, "no-close-after-failed-release", format!("{}: release() returned {:?} but the connection was not closed", peer(p), res));
                 }
                 acted = true;
@@ -241,7 +254,7 @@ fn run_schedule(r: &mut Rng, async_client: bool, async_server: bool, max_steps: 
         let q = 1 - p;
         match act {
             0 => match call_on(&txs, &rxs, long, p, Cmd::SendData) {
-                Res::Sent => { sent[p] += 1; let _ = px.wait_count(p as u8, base[p] + sent[p], Duration::from_millis(1500)); trace.push(Label::SendData(p)); ch[p].push_back(Item::K(Kind::Data)); }
+                Res::Sent => { sent[p] += 1; let _ = px.wait_count(p as u8, base[p] + sent[p], settle); trace.push(Label::SendData(p)); ch[p].push_back(Item::K(Kind::Data)); }
                 Res::SendErr(_) => { trace.push(Label::SendFail(p)); ph[p] = Ph::Done; ch[p].push_back(Item::Fin); }
                 o => { trace.push(Label::Bad(format!("send {:?}", o))); ph[p] = Ph::Done; }
             },
@@ -267,8 +280,8 @@ fn run_schedule(r: &mut Rng, async_client: bool, async_server: bool, max_steps: 
                 // wait until the A-RELEASE-RQ is on the wire (or the call already returned: send failure)
                 let t0 = std::time::Instant::now();
                 let mut early: Option<Res> = None;
-                while t0.elapsed() < Duration::from_millis(2000) {
-                    if px.count(p as u8) >= base[p] + sent[p] { break; }
+                while t0.elapsed() < settle {
+                    if px.count(p as u8) >= base[p] + sent[p] || px.ended(p as u8) { break; }
                     match rxs[p].recv_timeout(Duration::from_micros(300)) { Ok(r) => { early = Some(r); break; } Err(RecvTimeoutError::Timeout) => {} Err(_) => break }
                 }
                 trace.push(Label::Release(p)); ch[p].push_back(Item::K(Kind::Rq)); ph[p] = Ph::AwaitRp;
@@ -298,6 +311,7 @@ fn run_schedule(r: &mut Rng, async_client: bool, async_server: bool, max_steps: 
         }
         if steps > max_steps + 60 { notes.push("step budget exhausted".into()); break; }
     }
+    note_closes(&ph, &ch, &mut complete, &mut close_seen);
     for t in &txs { let _ = t.send(Cmd::Close); }
     drop(txs);
     for h in handles { let _ = h.join(); }
@@ -334,23 +348,23 @@ fn run_schedule(r: &mut Rng, async_client: bool, async_server: bool, max_steps: 
     // abort(): when the direction ended in an orderly way, the A-ABORT is the last PDU the peer put on the wire
     for l in &trace {
         if let Label::Abort(p) = l {
-            if orderly[*p] && wire[*p].last() != Some(&Kind::Abort) {
+            if complete[*p] && wire[*p].last() != Some(&Kind::Abort) {
                 fail(&mut fails, "abort-without-a-abort-pdu", format!("{} called abort(); PDUs it put on the wire: {:?}", peer(*p), wire[*p]));
             }
         }
     }
     let oracle = match fails { Some((class, detail)) => Oracle::Fails { class, detail }, None => Oracle::Holds };
-    Some(Run { trace, wire, orderly, oracle, impls: (async_client, async_server), notes })
+    Some(Run { trace, wire, complete, orderly, oracle, impls: (async_client, async_server), notes })
 }
 
 fn to_case(bucket: &str, run: Run) -> Case {
     let tr = c_list(run.trace.iter().map(|l| l.coq()));
-    let w = |d: usize| c_pair(&c_list(run.wire[d].iter().map(|k| k.coq().to_string())), &c_bool(run.orderly[d]));
+    let w = |d: usize| c_pair(&c_list(run.wire[d].iter().map(|k| k.coq().to_string())), &c_bool(run.complete[d]));
     let coq = c_tuple(&[tr.clone(), w(0), w(1)]);
     let desc = json!({"bucket": bucket, "requestor": if run.impls.0 { "async" } else { "sync" }, "acceptor": if run.impls.1 { "async" } else { "sync" },
         "trace": run.trace.iter().map(|l| match l { Label::Bad(s) => format!("BAD {s}"), l => l.coq() }).collect::<Vec<_>>(),
         "wire_requestor": run.wire[0].iter().map(|k| k.coq()).collect::<Vec<_>>(), "wire_acceptor": run.wire[1].iter().map(|k| k.coq()).collect::<Vec<_>>(),
-        "orderly": [run.orderly[0], run.orderly[1]], "notes": run.notes});
+        "closed_with_nothing_unread": [run.complete[0], run.complete[1]], "proxy_saw_fin": [run.orderly[0], run.orderly[1]], "notes": run.notes});
     let nontrivial = run.trace.len() >= 2;
     Case { key: if nontrivial { format!("{}|{}|{}", tr, run.impls.0, run.impls.1) } else { String::new() }, coq, desc, oracle: run.oracle }
 }
@@ -375,7 +389,7 @@ fn spawn_scp(non_blocking: bool, tag: u64) -> Option<Scp> {
     let scp = Scp { child, port, dir };
     // wait until it listens
     let t0 = std::time::Instant::now();
-    while t0.elapsed() < Duration::from_secs(10) {
+    while t0.elapsed() < Duration::from_secs(60) {
         if std::net::TcpStream::connect(("127.0.0.1", port)).is_ok() { return Some(scp); }
         std::thread::sleep(Duration::from_millis(20));
     }
@@ -410,6 +424,7 @@ fn run_scp(r: &mut Rng, scp: &Scp, non_blocking: bool) -> Option<Run> {
     let mut fails: Option<(String, String)> = None;
     let fail = |f: &mut Option<(String, String)>, c: &str, d: String| { if f.is_none() { *f = Some((c.to_string(), d)); } };
     let mut pending = 0usize;   // answers of storescp not yet received by the requestor
+    let mut complete = [true, true];
     let mut answered = 0usize;
     let mut rq_sent = false;
     let steps = r.below(6);
@@ -423,7 +438,7 @@ fn run_scp(r: &mut Rng, scp: &Scp, non_blocking: bool) -> Option<Run> {
                     Ok(()) => {
                         trace.push(Label::SendData(0));
                         answered += 1;
-                        if px.wait_count(1, base[1] + answered, Duration::from_millis(3000)) { trace.push(Label::Recv(1, Kind::Data)); trace.push(Label::SendData(1)); pending += 1; }
+                        if px.wait_count(1, base[1] + answered, Duration::from_secs(20)) { trace.push(Label::Recv(1, Kind::Data)); trace.push(Label::SendData(1)); pending += 1; }
                         else { answered -= 1; fail(&mut fails, "scp-echo-not-answered", "storescp did not answer a C-ECHO-RQ within 3 s".into()); trace.push(Label::Recv(1, Kind::Data)); }
                     }
                     Err(_) => { trace.push(Label::SendFail(0)); a = None; break; }
@@ -434,9 +449,11 @@ fn run_scp(r: &mut Rng, scp: &Scp, non_blocking: bool) -> Option<Run> {
                 Err(_) => { trace.push(Label::RecvFin(0)); a = None; break; }
             },
             3 => {
+                // release() reads one item: with more than one answer unread the requestor closes with unread data
+                complete[0] = pending <= 1;
                 let res = a.take()?.release();
                 trace.push(Label::Release(0)); rq_sent = true;
-                let _ = px.wait_ended(1, Duration::from_millis(3000));
+                let _ = px.wait_ended(1, Duration::from_secs(20));
                 let rp_on_wire = px.snapshot().iter().any(|x| x.dir == 1 && matches!(x.ev, Ev::Pdu { typ: 6, .. }));
                 match res {
                     Ok(()) => {
@@ -455,22 +472,24 @@ fn run_scp(r: &mut Rng, scp: &Scp, non_blocking: bool) -> Option<Run> {
                 }
             }
             4 => {
+                complete[0] = pending == 0;
                 let _ = a.take()?.abort();
                 trace.push(Label::Abort(0));
-                let _ = px.wait_ended(1, Duration::from_millis(3000));
+                let _ = px.wait_ended(1, Duration::from_secs(20));
                 if pending == 0 { trace.push(Label::Recv(1, Kind::Abort)); } else { trace.push(Label::Lose(0)); trace.push(Label::RecvFin(1)); }
             }
             _ => {
+                complete[0] = pending == 0;
                 drop(a.take());
                 trace.push(Label::Close(0));
-                let _ = px.wait_ended(1, Duration::from_millis(3000));
+                let _ = px.wait_ended(1, Duration::from_secs(20));
                 if pending > 0 { trace.push(Label::Lose(0)); }
                 trace.push(Label::RecvFin(1));
             }
         }
     }
     drop(a);
-    if !px.wait_ended(1, Duration::from_millis(3000)) { fail(&mut fails, "scp-keeps-connection", "storescp did not close the connection after the association ended".into()); }
+    if !px.wait_ended(1, Duration::from_secs(20)) { fail(&mut fails, "scp-keeps-connection", "storescp did not close the connection after the association ended".into()); }
     let log = px.finish();
     let mut wire: [Vec<Kind>; 2] = [vec![], vec![]];
     let mut orderly = [false, false];
@@ -484,12 +503,12 @@ fn run_scp(r: &mut Rng, scp: &Scp, non_blocking: bool) -> Option<Run> {
         }
     }
     // the acceptor answers a release request with a release reply
-    if rq_sent && orderly[0] && orderly[1] && !wire[1].contains(&Kind::Rp) {
+    if rq_sent && complete[0] && !wire[1].contains(&Kind::Rp) {
         fail(&mut fails, "scp-release-not-answered", format!("A-RELEASE-RQ reached storescp, its answer on the wire: {:?}", wire[1]));
     }
     if let Some(pos) = wire[1].iter().position(|k| *k == Kind::Rp) { if pos + 1 != wire[1].len() { fail(&mut fails, "data-after-completed-release", format!("storescp wrote {:?}", wire[1])); } }
     let oracle = match fails { Some((class, detail)) => Oracle::Fails { class, detail }, None => Oracle::Holds };
-    Some(Run { trace, wire, orderly, oracle, impls: (false, non_blocking), notes: vec!["acceptor = dicom-storescp binary".into()] })
+    Some(Run { trace, wire, complete, orderly, oracle, impls: (false, non_blocking), notes: vec!["acceptor = dicom-storescp binary".into()] })
 }
 
 fn scp_cases(r: &mut Rng, n: usize, out: &mut Vec<Case>) {
